@@ -155,6 +155,8 @@ def run_group(repo, unit, g, variant_defs=(), tag=''):
                 count[cur] = count.get(cur, 0) + 1
                 member = m.group(1)
                 label = '%s.function_pointer_call.%d' % (cur, count[cur])
+                if fp.get(member) and '*' in fp.get(member):          # '*': leave this interface member to cbmc's own candidate set
+                    unrestricted.append(label + ' (' + member + ', by request)'); continue
                 tg = [t for t in fp.get(member, []) if t in existing]
                 if tg:
                     restr.append(label + '/' + ','.join(tg))
